@@ -643,3 +643,9 @@ func c07EdgeAddrs(p *c07Program) (v4, v6 []netip.Addr) {
 	v6 = append(v6, netip.MustParseAddr("2001:db8::1"), netip.MustParseAddr("2606:4700::1111"), netip.MustParseAddr("::"))
 	return
 }
+
+// The two defects the matcher-level unit re-finds are listed per property; F1 (C04)
+// and F2 (C12) are the same root causes, so either listing keeps the generators away
+// from the shape.
+func c07KnownNegMerge() bool { return vkKnown("F-C07-1") || vkKnown("F1") }
+func c07KnownV6Zero() bool   { return vkKnown("F-C07-2") || vkKnown("F2") }
